@@ -875,6 +875,22 @@ class Program:
             for g in c.gbodies:
                 if g in self.bodies:
                     out.add(g)
+            # formatting: `format!("{x}")` / `x.to_string()` run <T as Display>::fmt (resp. Debug, LowerHex..) of a workspace type
+            # behind core::fmt's type-erased argument — an edge the resolved callee does not show
+            fn_ = c.fn or ""
+            fm = None
+            if fn_.startswith("core::fmt::rt::Argument") and "::new_" in fn_ and c.gargs:
+                tr = {"display": "Display", "debug": "Debug", "lower_hex": "LowerHex", "upper_hex": "UpperHex", "lower_exp": "LowerExp", "upper_exp": "UpperExp",
+                      "octal": "Octal", "binary": "Binary", "pointer": "Pointer"}.get(fn_.rsplit("::new_", 1)[1])
+                if tr:
+                    fm = (c.gargs[0], tr)
+            elif fn_ == "alloc::string::ToString::to_string" and c.term.get("arg_tys"):
+                fm = (c.term["arg_tys"][0], "Display")
+            if fm:
+                ty = fm[0].replace("mut ", "").lstrip("&").strip()
+                k_ = "<%s as core::fmt::%s>::fmt" % (strip_generics(ty) if "<" in ty else ty, fm[1])
+                if k_ in self.bodies:
+                    out.add(k_)
             # function items passed as values (`fold_many1(get_duration_part, ..)`, `.map(AccountKeyStorage::new)`)
             for a in c.args:
                 self._fn_const(a, out)
